@@ -113,6 +113,9 @@ impl AuEncode {
 impl Block for AuEncode {
     fn work(&mut self) -> Result<BlockRet> {
         let mut o = self.dst.write_buf()?;
+        if o.is_empty() {
+            return Ok(BlockRet::WaitForStream(&self.dst, 1));
+        }
         if let Some(h) = &self.header {
             let n = std::cmp::min(h.len(), o.len());
             o.fill_from_slice(&h[..n]);
@@ -134,7 +137,7 @@ impl Block for AuEncode {
         }
         let n = std::cmp::min(i.len(), o.len() / ss);
         if n == 0 {
-            return Ok(BlockRet::WaitForStream(&self.dst, 1));
+            return Ok(BlockRet::WaitForStream(&self.dst, ss));
         }
 
         for j in 0..n {
